@@ -333,8 +333,16 @@ pub struct Env {
     pub born: Instant,
 }
 
+/// Method token of control requests: longer than any method the generators produce (<= 12
+/// characters), so that a generated request can never be mistaken for a control request.
+pub const CTL_METHOD: &str = "VHCONTROLPROBE0123456789";
+
+pub fn is_control(rq: &Request) -> bool {
+    rq.method().as_str() == CTL_METHOD
+}
+
 pub fn default_handler(rq: Request) {
-    if rq.url().starts_with("/ctl") {
+    if is_control(&rq) {
         CTL_SERVED.fetch_add(1, Ordering::Relaxed);
         let _ = rq.respond(Response::from_string("ctl"));
     } else {
@@ -393,7 +401,7 @@ impl Env {
     pub fn control(&self, timeout: Duration) -> Option<Duration> {
         let t = Instant::now();
         let mut c = crate::net::Client::connect(&self.addr).ok()?;
-        if !c.send(b"GET /ctl HTTP/1.1\r\nHost: c\r\nConnection: close\r\n\r\n") {
+        if !c.send(format!("{} /ctl HTTP/1.1\r\nHost: c\r\nConnection: close\r\n\r\n", CTL_METHOD).as_bytes()) {
             return None;
         }
         match c.await_finals(1, &|_| false, timeout) {
